@@ -10,7 +10,10 @@ import numpy as np
 import common
 from pydrobert.speech import post
 
-PATHS = [("a", "npy", "a.npy"), ("b", "npz", "b.npz"), ("c", "raw", "c.bin"), ("d", "npz", "d.npz")]
+# (the kind of a target is decided by its suffix exactly as written: ".npy" / ".npz", anything else - upper-case
+# look-alikes included - is raw binary)
+PATHS = [("a", "npy", "a.npy"), ("b", "npz", "b.npz"), ("c", "raw", "c.bin"), ("d", "npz", "d.npz"),
+         ("e", "raw", "E.NPY"), ("f", "raw", "f.Npz")]
 
 
 def model_check(run, tier):
